@@ -123,6 +123,48 @@ theorem randArgmaxRows_is_max (rows : List (List (Option α))) (noise : List (Li
   refine ⟨m, hm, ?_⟩
   simpa [randArgmaxRows] using hget
 
+/-! ### n-d arrays (`axis=None`): the flat arg-max is unravelled to a position of the array -/
+
+theorem flatten_getElem? {γ : Type} (rows : List (List γ)) (c : Nat) (hc : 0 < c)
+    (h : ∀ r ∈ rows, r.length = c) (i : Nat) :
+    rows.flatten[i]? = (rows[i / c]?).bind (fun r => r[i % c]?) := by
+  induction rows generalizing i with
+  | nil => simp
+  | cons r rs ih =>
+    have hr : r.length = c := h r (List.mem_cons_self ..)
+    have hrs : ∀ r' ∈ rs, r'.length = c := fun r' hr' => h r' (List.mem_cons_of_mem _ hr')
+    simp only [List.flatten_cons]
+    rcases Nat.lt_or_ge i c with hlt | hge
+    · rw [List.getElem?_append_left (by omega)]
+      have e1 : i / c = 0 := Nat.div_eq_of_lt hlt
+      have e2 : i % c = i := Nat.mod_eq_of_lt hlt
+      simp [e1, e2]
+    · rw [List.getElem?_append_right (by omega), hr, ih hrs (i - c)]
+      have e1 : i / c = (i - c) / c + 1 := by
+        have : i = (i - c) + c := by omega
+        rw [this, Nat.add_div_right _ hc]; simp
+      have e2 : i % c = (i - c) % c := by
+        have : i = (i - c) + c := by omega
+        rw [this, Nat.add_mod_right]; simp
+      rw [e1, e2]; simp
+
+/-- **2-d arrays, `axis=None`**: the pair returned by `rand_argmax` (flat arg-max unravelled with
+`np.unravel_index`) addresses an exact maximum of the non-NaN entries of the whole array. -/
+theorem randArgmax_flat2_is_max (rows : List (List (Option α))) (c : Nat) (hc : 0 < c)
+    (hshape : ∀ r ∈ rows, r.length = c) (noise : List β)
+    (hlen : noise.length = rows.flatten.length) (hp : ∀ n ∈ noise, 0 < n)
+    (hsome : 0 < countSome rows.flatten) :
+    ∃ m, nanmax rows.flatten = some m ∧
+      (rows[(unravel2 c (randArgmax rows.flatten noise)).1]?).bind
+        (fun r => r[(unravel2 c (randArgmax rows.flatten noise)).2]?) = some (some m) ∧
+      ∀ v, some v ∈ rows.flatten → v ≤ m := by
+  obtain ⟨m, hm, hget, hge⟩ := randArgmax_is_max_of_pos rows.flatten noise hlen hp hsome
+  refine ⟨m, hm, ?_, hge⟩
+  have := flatten_getElem? rows c hc hshape (randArgmax rows.flatten noise)
+  simp only [unravel2]
+  rw [← this]
+  exact hget
+
 /-- The excluded corner is real: if numpy draws `0.0` on every maximal position the code returns a
 non-maximal position (an honest limit of the implementation; probability 2⁻⁵³ per maximal entry). -/
 theorem randArgmax_zero_noise_corner :
